@@ -90,6 +90,20 @@ fn check(ctx: &mut Ctx, list: &[&str], k: usize, probes: &[String]) {
         if v.iter().map(|s| s.as_str()).collect::<Vec<_>>() != list {
             return Err("(&r).into_iter() differs".into());
         }
+        if n <= 4 || list.iter().any(|s| s.len() > 100) {
+            // the iterator protocol beyond a plain pass (nth / skip / step_by / count / last / size_hint)
+            let owned: Vec<String> = list.iter().map(|s| s.to_string()).collect();
+            if let Some(w) = vh::models::iter_protocol(|| r.iter(), &owned) {
+                return Err(w);
+            }
+            for j in [1usize, n] {
+                if j <= n {
+                    if let Some(w) = vh::models::iter_protocol(|| r.iter_from(j), &owned[j..]) {
+                        return Err(format!("iter_from({j}): {w}"));
+                    }
+                }
+            }
+        }
         Ok(())
     });
     q!("lend", {
